@@ -394,6 +394,125 @@ pub fn mso_frame_strategy() -> impl Strategy<Value = MutCase> {
     })
 }
 
+
+// ------------------------------------------------------------------ sequences on one codec instance
+/// A connection encodes all its packets with one `Codec`. Whatever happened before (refused packets, long packets, short
+/// ones), each successful result must be the single well-formed frame a fresh codec produces for that packet.
+#[derive(Clone, Debug)]
+pub struct SeqCase {
+    pub compressed: bool,
+    /// each item: a frame to decode into the packet that is encoded, or a one-byte pseudo frame standing for a packet the encoder
+    /// must refuse (0xFF: MCI x 60 = 1684 bytes; 0xFE: PLH x 70 = 284 bytes, refused uncompressed; 0xFD: HCP with a mass of 201 kg;
+    /// 0xFC: MAL with 121 mods)
+    pub items: Vec<Vec<u8>>,
+}
+
+fn seq_packet(item: &[u8], mode: &Mode) -> Option<Packet> {
+    if item.len() == 1 {
+        let tape = [7u8; 16];
+        let mut t = crate::refs::image::Tape::new(&tape);
+        return match item[0] {
+            0xFF => build::counted_packet("Mci", 60, &mut t),
+            0xFE => build::counted_packet("Plh", 70, &mut t),
+            0xFD => {
+                let mut h = insim::insim::Hcp::default();
+                h.info[31].h_mass = 201;
+                Some(Packet::Hcp(h))
+            },
+            _ => {
+                let mut m = insim::insim::Mal::default();
+                for i in 0..121u32 {
+                    let _ = m.insert(insim_core::vehicle::Vehicle::Mod(0x0100_0000 + i));
+                }
+                Some(Packet::Mal(m))
+            },
+        };
+    }
+    decode_one(item, mode).ok()
+}
+
+pub struct OneCodec;
+impl Part for OneCodec {
+    type Case = SeqCase;
+    fn name(&self) -> &'static str {
+        "sequences-on-one-codec"
+    }
+    fn check(&self, c: &SeqCase, ev: &mut Local) -> Result<(), Fail> {
+        let mode = if c.compressed { Mode::Compressed } else { Mode::Uncompressed };
+        let shared = insim::net::Codec::new(mode.clone());
+        let mut refused_before = false;
+        let mut after_refusal = 0usize;
+        let mut n = 0usize;
+        for (i, item) in c.items.iter().enumerate() {
+            let Some(p) = seq_packet(item, &mode) else { continue };
+            n += 1;
+            let kind = kind_of(&p);
+            let a = guard(|| shared.encode(&p).map(|b| b.to_vec()).map_err(|e| e.to_string()));
+            let b = guard(|| insim::net::Codec::new(mode.clone()).encode(&p).map(|b| b.to_vec()).map_err(|e| e.to_string()));
+            match (&a, &b) {
+                (Ok(Ok(x)), Ok(Ok(y))) => {
+                    ensure!(
+                        x == y,
+                        format!("c03:codec-carries-state-between-packets:{kind}"),
+                        "{} mode, packet #{i} ({kind}) of the sequence: the connection's codec emitted {} bytes {}, a fresh codec {} bytes {}",
+                        mode_name(&mode),
+                        x.len(),
+                        hex(&x[..x.len().min(40)]),
+                        y.len(),
+                        hex(&y[..y.len().min(40)])
+                    );
+                    if refused_before {
+                        after_refusal += 1;
+                    }
+                },
+                (Ok(Err(_)) | Err(_), Ok(Err(_)) | Err(_)) => refused_before = true,
+                _ => fail!(
+                    format!("c03:codec-carries-state-between-packets:{kind}"),
+                    "{} mode, packet #{i} ({kind}): the connection's codec answered {:?}, a fresh codec {:?}",
+                    mode_name(&mode),
+                    a.as_ref().map(|r| r.as_ref().map(|v| v.len())),
+                    b.as_ref().map(|r| r.as_ref().map(|v| v.len()))
+                ),
+            }
+        }
+        if n >= 2 {
+            ev.nontrivial(&(c.compressed, &c.items));
+        }
+        if after_refusal > 0 {
+            ev.class("successful-encode-after-a-refused-packet");
+        }
+        ev.max("packets", n as u64);
+        Ok(())
+    }
+    fn to_json(&self, c: &SeqCase) -> Value {
+        json!({"compressed": c.compressed, "items": c.items.iter().map(|f| hex(f)).collect::<Vec<_>>()})
+    }
+    fn from_json(&self, v: &Value) -> Option<SeqCase> {
+        Some(SeqCase { compressed: v.get("compressed")?.as_bool()?, items: v.get("items")?.as_array()?.iter().map(|f| unhex(f.as_str()?)).collect::<Option<Vec<_>>>()? })
+    }
+}
+
+pub fn seq_strategy() -> impl Strategy<Value = SeqCase> {
+    let item = prop_oneof![
+        6 => tape_strategy().prop_map(|tc| (0u8, tc.variant, tc.tape)),
+        3 => (0xFCu8..=0xFF).prop_map(|b| (b, String::new(), vec![])),
+    ];
+    (any::<bool>(), proptest::collection::vec(item, 1..8)).prop_map(|(compressed, items)| {
+        let mode = if compressed { Mode::Compressed } else { Mode::Uncompressed };
+        let items = items
+            .into_iter()
+            .map(|(pseudo, variant, tape)| {
+                if pseudo != 0 {
+                    return vec![pseudo];
+                }
+                let p = spec().packet(&variant).unwrap();
+                image::from_tape(p, &mode, &tape, true).image
+            })
+            .collect();
+        SeqCase { compressed, items }
+    })
+}
+
 /// an IS_VER frame around an arbitrary version text (cut to 8 bytes on a character boundary)
 pub fn ver_frame_strategy() -> impl Strategy<Value = MutCase> {
     let text = prop_oneof![
@@ -420,7 +539,7 @@ pub fn ver_frame_strategy() -> impl Strategy<Value = MutCase> {
 }
 
 pub fn parts() -> Vec<Box<dyn DynPart>> {
-    vec![Box::new(Counts), Box::new(TextLengths), Box::new(FromImages), Box::new(AcceptedFrames), Box::new(MsoTextStart)]
+    vec![Box::new(Counts), Box::new(TextLengths), Box::new(FromImages), Box::new(AcceptedFrames), Box::new(MsoTextStart), Box::new(OneCodec)]
 }
 
 pub fn run(run: &mut Run) {
@@ -435,7 +554,8 @@ pub fn run(run: &mut Run) {
         fields x 2 modes, plus random multi-byte text; (3) packets decoded from conformant frames of all 73 kinds, re-encoded in both modes; \
         (4) packets decoded from mutated / extended / high-byte-filled frames that the decoder accepted, plus IS_VER frames around free-form \
         version text and IS_MSO frames with any TextStart over codepage-switching text; (5) hand-built MSO with TextStart at every character \
-        position of multi-codepage messages around the 128-byte limit. Non-trivial = every case (each one \
+        position of multi-codepage messages around the 128-byte limit; (6) sequences of 1..7 packets, refused ones among them, encoded by \
+        one codec instance (as a connection does): every result must equal what a fresh codec gives for that packet. Non-trivial = every case (each one \
         exercises the encoder on a distinct packet)."
         .into();
     run.assumptions = vec!["element size / header length / count offset of the counted kinds are taken from the specification transcription".into()];
@@ -495,4 +615,7 @@ pub fn run(run: &mut Run) {
     // (5) hand-built MSO with a text start, messages around the 128-byte limit
     let n = run.budget(100_000, 5_000_000);
     run.prop(&MsoTextStart, mso_case_strategy(), n);
+    // (6) sequences of packets (refused ones among them) on one codec instance, as a connection uses it
+    let n = run.budget(40_000, 2_000_000);
+    run.prop(&OneCodec, seq_strategy(), n);
 }
